@@ -29,6 +29,45 @@ void __sanitizer_finish_switch_fiber(void *fake_stack_save, const void **bottom_
 #define __sanitizer_finish_switch_fiber(a, b, c) ((void)0)
 #endif
 
+/* ---------------- what the process can ask its environment ----------------
+ * A library may adapt to the machine (take a lock only on a multiprocessor, say).  The program's own definitions
+ * of the CPU-count queries win over libc's at link time; while `onecpu` is set they report a process confined to
+ * exactly ONE cpu, otherwise they forward to the kernel / libc.  A single CPU still preempts: every interleaving
+ * stays possible and every oracle applies unchanged.  (No sanitizer instrumentation and no runtime calls in here:
+ * a sanitizer runtime may ask before it is initialised.) */
+#include <sched.h>
+#include <unistd.h>
+#include <sys/syscall.h>
+#include <sys/sysinfo.h>
+#define ENVQ __attribute__((no_sanitize("address", "undefined")))
+static volatile int onecpu;             /* the answers report one CPU */
+static volatile int envq_window;        /* inside run_execution(): whoever asks now is the library */
+static volatile unsigned long envq_lib, envq_lib_one;
+extern long __sysconf(int name);
+ENVQ static void envq_note(void) { if (envq_window) { envq_lib++; if (onecpu) envq_lib_one++; } }
+ENVQ int sched_getaffinity(pid_t pid, size_t sz, cpu_set_t *set)
+{
+    long r;
+    size_t i;
+    envq_note();
+    if (onecpu && sz >= sizeof(unsigned long) && set != NULL) {
+        for (i = 0; i < sz; i++) ((unsigned char *)set)[i] = 0;
+        ((unsigned char *)set)[0] = 1;          /* CPU 0 and nothing else */
+        return 0;
+    }
+    r = syscall(SYS_sched_getaffinity, pid, sz, set);
+    if (r < 0) return -1;
+    for (i = (size_t)r; i < sz; i++) ((unsigned char *)set)[i] = 0;
+    return 0;
+}
+ENVQ long sysconf(int name)
+{
+    if (name == _SC_NPROCESSORS_ONLN || name == _SC_NPROCESSORS_CONF) { envq_note(); if (onecpu) return 1; }
+    return __sysconf(name);
+}
+ENVQ int get_nprocs(void) { envq_note(); return onecpu ? 1 : (int)__sysconf(_SC_NPROCESSORS_ONLN); }
+ENVQ int get_nprocs_conf(void) { envq_note(); return onecpu ? 1 : (int)__sysconf(_SC_NPROCESSORS_CONF); }
+
 enum { VSP_LOAD = 1, VSP_ADD, VSP_SUB, VSP_TAS, VSP_CLEAR, VSP_STORE, VSP_YIELD, VSP_FREE, VSP_CLRCB, VSP_OP };
 
 #define MAXT 4
@@ -456,6 +495,7 @@ static int run_execution(const struct scenario *sc)
     nthr = sc->nthr; nH = 0; slice = 0; abandon = 0; cur = NULL;
     clear_count = memfree_count = bookfree_count = 0; clear_op = bookfree_op = -1;
     sched_hash = 0x5c4ed; ctx_switches = 0; dfs_depth = 0;
+    envq_lib = envq_lib_one = 0; envq_window = 1;
     if (uf.on) {
         uf.phase = uf.a_steps = uf.events = uf.fails = uf.run_fails = uf.a_short = uf.spun[0] = uf.spun[1] = uf.maxrun = 0;
         vrt_rng_seed(&uf.g, uf.seed, (uint64_t)uf.pv);     /* same prefix in every re-execution of the DFS */
@@ -576,6 +616,11 @@ static int run_execution(const struct scenario *sc)
     } else VRT_COUNT("lin.histories-linearizable");
     VRT_COUNT("sched.executions");
     if (ctx_switches > 0) VRT_COUNT("sched.executions.with-context-switch");
+    envq_window = 0;
+    if (onecpu) VRT_COUNT("onecpu.executions");
+    /* how often the library asked for the number of CPUs (0 = it never adapts to it) */
+    VRT_COUNT_N("env.cpu-count-queries.by-library", envq_lib);
+    VRT_COUNT_N("env.cpu-count-queries.by-library.answered-one-cpu", envq_lib_one);
     return 0;
 }
 
@@ -674,7 +719,7 @@ static const struct scenario unfair_sc[] = {
 #define UNFAIR_PAIRS (MAXT * MAXT)      /* one case per scenario and ordered pair (A frozen, B waiter) */
 
 static int maxlen2;             /* script length for the exhaustive two-thread family */
-static uint64_t ncombo, npairs, nsample3, nrandom;
+static uint64_t ncombo, npairs, nsample3, nrandom, nonecpu;
 
 static void pair_from_index(uint64_t idx, uint64_t *a, uint64_t *b)
 {
@@ -770,11 +815,83 @@ static void run_unfair_case(uint64_t idx)
     VRT_COUNT("scenarios.unfair");
 }
 
+/* does thread t's script lock a weak pointer that refers to the allocation? */
+static int locks_nonempty_weak(const struct scenario *sc, int t)
+{
+    int i, weak = (sc->init[t] & 2) != 0, own0 = sc->init[t] & 1;
+    for (i = 0; i < sc->nops[t]; i++) {
+        const int op = sc->ops[t][i];
+        if (op == O_LOCK && weak) return 1;
+        if (op == O_WRESET) weak = 0;
+        if (op == O_WFROM) weak = own0;
+        if (op == O_RESET0) own0 = 0;
+    }
+    return 0;
+}
+static int lockcombo[64], nlockcombo;   /* the (initial configuration, script) combinations that lock a non-empty weak pointer */
+static uint64_t nbothlock;
+/* The process is confined to ONE cpu: a seeded sample of the two-thread pairs in which a thread locks a weak
+ * pointer, every interleaving of each (DFS), while the CPU-count queries answer 1.  These cases come FIRST in the
+ * case order: every worker process starts with them, so a library that asks once and caches the answer for the
+ * life of the process has been told "one CPU" from its first question on. */
+static void self_test_queries(void)
+{
+    cpu_set_t cs;
+    int n1, n16;
+    CPU_ZERO(&cs);
+    onecpu = 1;
+    n1 = sched_getaffinity(0, sizeof(cs), &cs) == 0 ? CPU_COUNT(&cs) : -1;
+    if (n1 != 1 || sysconf(_SC_NPROCESSORS_ONLN) != 1 || sysconf(_SC_NPROCESSORS_CONF) != 1 || get_nprocs() != 1 || get_nprocs_conf() != 1)
+        vrt_fail("harness.onecpu.queries-not-interposed", "with the one-CPU answers active a CPU-count query still reports more than one CPU");
+    onecpu = 0;
+    n16 = sched_getaffinity(0, sizeof(cs), &cs) == 0 ? CPU_COUNT(&cs) : -1;
+    if (n16 < 1 || sysconf(_SC_NPROCESSORS_ONLN) < 1 || get_nprocs() < 1 || get_nprocs_conf() < 1 || sysconf(_SC_PAGESIZE) < 1)
+        vrt_fail("harness.onecpu.forwarding-broken", "the interposed queries do not forward to the real ones");
+    VRT_COUNT("onecpu.self-test.queries-answer-one-then-real");
+}
+static void run_onecpu_case(uint64_t k)
+{
+    struct scenario sc;
+    vrt_rng g;
+    int tries, ok = 0;
+    self_test_queries();
+    vrt_rng_seed(&g, vrt_seed, 0xC061C0 + k);
+    if (k < nbothlock) {
+        /* every pair in which BOTH threads lock (what the spin flag is there to serialise), not a sample */
+        uint64_t row = 0, rem = k;
+        while (rem >= (uint64_t)nlockcombo - row) { rem -= (uint64_t)nlockcombo - row; row++; }
+        memset(&sc, 0, sizeof(sc));
+        sc.nthr = 2;
+        combo_to_thread(lockcombo[row], maxlen2, &sc, 0);
+        combo_to_thread(lockcombo[row + rem], maxlen2, &sc, 1);
+        ok = 1;
+    }
+    for (tries = 0; tries < 400 && !ok; tries++) {
+        memset(&sc, 0, sizeof(sc));
+        sc.nthr = 2;
+        combo_to_thread(vrt_below(&g, (uint32_t)ncombo), maxlen2, &sc, 0);
+        combo_to_thread(vrt_below(&g, (uint32_t)ncombo), maxlen2, &sc, 1);
+        ok = locks_nonempty_weak(&sc, 0) || locks_nonempty_weak(&sc, 1);
+        /* mostly with an owner around at the start (else the allocation has expired before the threads run) */
+        if (ok && (k & 3) != 0 && !((sc.init[0] | sc.init[1]) & 1)) ok = 0;
+    }
+    if (!ok) vrt_fail("harness.onecpu.no-lock-pair-drawn", "no two-thread pair with a weak lock in 400 draws");
+    if (locks_nonempty_weak(&sc, 0) && locks_nonempty_weak(&sc, 1)) VRT_COUNT("onecpu.scenarios.both-threads-lock");
+    VRT_COUNT("onecpu.scenarios.weak-lock-pairs");
+    onecpu = 1;
+    /* quick tier: the pairs of two 2-operation scripts are explored up to a cap only (time budget) */
+    run_dfs_case(&sc, vrt_thorough ? 200000 : sc.nops[0] + sc.nops[1] <= 3 ? 60000 : 2000, "two-thread-one-cpu");
+    onecpu = 0;
+}
+
 static void run_case(uint64_t idx)
 {
     struct scenario sc;
     memset(&sc, 0, sizeof(sc));
     uf.on = 0;
+    onecpu = 0; envq_window = 0;
+    if (idx < nonecpu) { run_onecpu_case(idx); return; }
+    idx -= nonecpu;
     if (idx < npairs) {
         uint64_t a, b;
         pair_from_index(idx, &a, &b);
@@ -875,7 +992,19 @@ static uint64_t ncases(void)
     npairs = ncombo * (ncombo + 1) / 2;
     nsample3 = vrt_thorough ? 40000 : 8000;
     nrandom = vrt_thorough ? 30000 : 6000;
-    return npairs + NSELECTED + nsample3 + nrandom + (uint64_t)NUNFAIR * UNFAIR_PAIRS;
+    {
+        uint64_t c;
+        nlockcombo = 0;
+        for (c = 0; c < ncombo; c++) {
+            struct scenario sc;
+            memset(&sc, 0, sizeof(sc));
+            combo_to_thread(c, maxlen2, &sc, 0);
+            if (locks_nonempty_weak(&sc, 0) && nlockcombo < 64) lockcombo[nlockcombo++] = (int)c;
+        }
+        nbothlock = (uint64_t)nlockcombo * (nlockcombo + 1) / 2;
+    }
+    nonecpu = nbothlock + (vrt_thorough ? 600 : 100);
+    return nonecpu + npairs + NSELECTED + nsample3 + nrandom + (uint64_t)NUNFAIR * UNFAIR_PAIRS;
 }
 static void winit(void)
 {
@@ -889,7 +1018,9 @@ static const char *const required[] = {
     "scenarios.two-thread.exhausted", "interleavings.sampled", "sched.clear-callbacks.reentrant",
     "unfair.configurations.holder-frozen-inside-critical-section", "unfair.executions.waiter-failed-100-in-a-row",
     "unfair.executions.waiter-failed-300-in-a-row", "unfair.executions.two-waiters-spun-in-turn",
-    "unfair.sampled.waiter-failed-100-in-a-row", NULL
+    "unfair.sampled.waiter-failed-100-in-a-row",
+    "onecpu.executions", "onecpu.scenarios.weak-lock-pairs", "onecpu.scenarios.both-threads-lock",
+    "onecpu.self-test.queries-answer-one-then-real", "scenarios.two-thread-one-cpu.exhausted", NULL
 };
 static const struct vrt_harness H = { "memory_sched", ncases, run_case, winit, NULL, required, 16 };
 int main(int argc, char **argv) { return vrt_main(argc, argv, &H); }
